@@ -128,17 +128,17 @@ func ComputeLedger(st *types.AppState) *Ledger {
 	}
 	for _, c := range st.Candidates {
 		for _, s := range c.Stakes {
-			l.add(s.Coin, "stake", s.Value, fmt.Sprintf("cand %d stake %s", c.ID, s.Owner))
+			l.add(s.Coin, "stake", s.Value, fmt.Sprintf("cand %d stake %s", c.ID, s.Owner.String()))
 		}
 		for _, s := range c.Updates {
-			l.add(s.Coin, "update", s.Value, fmt.Sprintf("cand %d update %s", c.ID, s.Owner))
+			l.add(s.Coin, "update", s.Value, fmt.Sprintf("cand %d update %s", c.ID, s.Owner.String()))
 		}
 	}
 	for _, w := range st.Waitlist {
-		l.add(w.Coin, "waitlist", w.Value, fmt.Sprintf("waitlist cand %d %s", w.CandidateID, w.Owner))
+		l.add(w.Coin, "waitlist", w.Value, fmt.Sprintf("waitlist cand %d %s", w.CandidateID, w.Owner.String()))
 	}
 	for _, f := range st.FrozenFunds {
-		l.add(f.Coin, "frozen", f.Value, fmt.Sprintf("frozen h=%d %s", f.Height, f.Address))
+		l.add(f.Coin, "frozen", f.Value, fmt.Sprintf("frozen h=%d %s", f.Height, f.Address.String()))
 	}
 	for _, p := range st.Pools {
 		l.add(p.Coin0, "pool", p.Reserve0, fmt.Sprintf("pool %d r0", p.ID))
